@@ -208,7 +208,7 @@ def miri_arm(prop, seed, tier, notes):
         e = dict(env)
         e["MIRIFLAGS"] = "-Zmiri-ignore-leaks -Zmiri-symbolic-alignment-check -Zmiri-seed=%d" % ((seed + 100 + w) % (2 ** 31))
         jobs.append(dict(cmd=["cargo", "+nightly", "miri", "run", "--offline", "-q", "-p", "recsim", "--", "tour", "--seed", str(seed), "--faults", "on" if w % 2 else "off", "--focus", prop,
-                              "--init-skipped", "--max-defs", str(max(1, t["miri_tour_defs"] // 4) if prop in ("C06", "C07") else t["miri_tour_defs"]), "--part", str(w // 2), "--parts", str(max(1, workers // 2)), "--trace-cases"],
+                              "--init-skipped", "--max-defs", str(max(1, t["miri_tour_defs"] // 4) if prop in ("C06", "C07") else t["miri_tour_defs"]), "--part", str(w // 2), "--parts", str(max(1, workers // 2)), "--trace-cases"] + (["--max-histories", "8"] if tier == "quick" else []),
                          cwd=SIM, env=e, tag=("miri", "on" if w % 2 else "off"), miri_seed=(seed + 100 + w) % (2 ** 31)))
     results = fan_out(jobs, timeout=6 * 3600)
     merged = Merged()
